@@ -110,10 +110,14 @@ def initial_compositions(lab):
 
 def make_worklist(ctx, dev, max_volume=None, **kw):
     ns = rt()
-    cls = {"evo": ns.EvoWorklist, "fluent": ns.FluentWorklist, "base": ns.BaseWorklist}[dev]
-    if max_volume is None:
-        return cls(**kw)
-    return cls(max_volume=max_volume, **kw)
+    import warnings
+    # "legacy": the deprecated robotools.Worklist class (an EvoWorklist that warns on construction), still exported
+    cls = {"evo": ns.EvoWorklist, "fluent": ns.FluentWorklist, "base": ns.BaseWorklist, "legacy": getattr(ns.robotools, "Worklist", ns.EvoWorklist)}[dev]
+    with warnings.catch_warnings():
+        warnings.simplefilter("ignore")
+        if max_volume is None:
+            return cls(**kw)
+        return cls(max_volume=max_volume, **kw)
 
 
 def product_dicts(**axes):
